@@ -24,18 +24,26 @@ def _mid(nodes):
 
 def runs(env, key, factory, ins):
     """(label, outputs at ins): a fresh instance, then live instances whose previous run differed from ins in one input
-    (the statement is about every evaluation of a model, not only the first)"""
+    (the statement is about every evaluation of a model, not only the first); branches on symbolic values met on the way
+    are explored, one (label, outputs) per path"""
+    def tag(path):
+        return (" @path(%s)" % ";".join("%s=%s" % (repr(c)[:40], "T" if b else "F") for c, b in path)) if path else ""
     h = env.comp(key, factory)
-    yield "", h.compute(ins)
+    for path, o in env.explore(lambda: h.compute(ins)):
+        yield tag(path), o
     if len(ins) < 2:
         return
     for k in ins:
         hk = env.comp("%s.after.%s" % (key, k), factory)
         prev = dict(ins)
         prev[k] = hk.inputs(tag="P.")[k]
-        store = hk.out_store()
-        hk.compute(prev, outs=store)
-        yield " (instance last run with another %s)" % k, hk.compute(ins, outs=store)
+
+        def revisit(hk=hk, prev=prev):
+            store = hk.out_store()
+            hk.compute(prev, outs=store)
+            return hk.compute(ins, outs=store)
+        for path, o in env.explore(revisit):
+            yield " (instance last run with another %s)%s" % (k, tag(path)), o
 
 
 @job("c16.Weight_CG", ("C16",), cfgs=product(NYS, SYMS, [dict(model="tube")]), ranges=R)
